@@ -10,6 +10,10 @@
 (*   "AN" such an alias nested inside a sequence (the scanner reports      *)
 (*        "unknown anchor" but can go on scanning afterwards)              *)
 (*   "S" syntax error, "U" unterminated flow collection                    *)
+(*   "BF","BI" documents whose scalar bytes exceed the budget of the       *)
+(*        budgeted iterator, at the first node / inside a sequence; for    *)
+(*        every consumer without a budget they are type errors (early /    *)
+(*        late)                                                            *)
 (* Declarative meaning:                                                    *)
 (*   Items(ks): per document in order - null/empty skipped, valid -> ok,   *)
 (*   type error -> "type", anything the scanner rejects -> "syntax" and    *)
@@ -21,10 +25,11 @@
 (***************************************************************************)
 EXTENDS Naturals, Sequences, FiniteSets, SequencesExt, TLC
 
-Kinds == {"V", "W", "D", "E", "N", "TE", "TL", "A", "AN", "S", "U"}
+Kinds == {"V", "W", "D", "E", "N", "TE", "TL", "A", "AN", "S", "U", "BF", "BI"}
 Valid(k) == k \in {"V", "W", "D"}
 Nullish(k) == k \in {"E", "N"}
-TypeErr(k) == k \in {"TE", "TL"}
+TypeErr(k) == k \in {"TE", "TL", "BF", "BI"}
+Breach(k) == k \in {"BF", "BI"}             \* over the budget (when there is one)
 SyntaxErr(k) == k \in {"A", "S", "U"}        \* the scanner cannot go on
 UnknownAlias(k) == k \in {"A", "AN"}
 
@@ -53,6 +58,18 @@ IterAdmissible(obs, ks) ==
   ELSE IF TypeErr(k) THEN obs # <<>> /\ obs[1] = "type" /\ IterAdmissible(Tail(obs), Tail(ks))
   ELSE IF UnknownAlias(k) THEN obs # <<>> /\ obs[1] = "syntax" /\ (Tail(obs) = <<>> \/ IterAdmissible(Tail(obs), Tail(ks)))
   ELSE obs = <<"syntax">>
+(* the iterator with a per-document budget: a document over the budget yields the budget error, and the iterator     *)
+(* goes on with the following document wherever in the document the breach was noticed (per-document enforcement)   *)
+RECURSIVE IterAdmissibleB(_, _)
+IterAdmissibleB(obs, ks) ==
+  IF ks = <<>> THEN obs = <<>> ELSE
+  LET k == ks[1] IN
+  IF Nullish(k) THEN IterAdmissibleB(obs, Tail(ks))
+  ELSE IF Valid(k) THEN obs # <<>> /\ obs[1] = k /\ IterAdmissibleB(Tail(obs), Tail(ks))
+  ELSE IF Breach(k) THEN obs # <<>> /\ obs[1] = "budget" /\ IterAdmissibleB(Tail(obs), Tail(ks))
+  ELSE IF TypeErr(k) THEN obs # <<>> /\ obs[1] = "type" /\ IterAdmissibleB(Tail(obs), Tail(ks))
+  ELSE IF UnknownAlias(k) THEN obs # <<>> /\ obs[1] = "syntax" /\ (Tail(obs) = <<>> \/ IterAdmissibleB(Tail(obs), Tail(ks)))
+  ELSE obs = <<"syntax">>
 (* documents the scanner delivers before it fails (a syntax-error kind contributes a started document) *)
 RECURSIVE DocCount(_)
 DocCount(ks) == IF ks = <<>> THEN 0 ELSE IF SyntaxErr(ks[1]) THEN 1 ELSE 1 + DocCount(Tail(ks))
@@ -72,7 +89,8 @@ DocRaw(k, d) ==
     [] k = "W"  -> <<REv("DS", d)>> \o Content(3, d) \o <<REv("DE", d)>>
     [] k = "D"  -> <<REv("DS", d)>> \o Content(3, d) \o <<REv("DE", d)>>
     [] k \in {"E", "N"} -> <<REv("DS", d), REv("NUL", d), REv("DE", d)>>
-    [] k \in {"TE", "TL"} -> <<REv("DS", d)>> \o Content(4, d) \o <<REv("DE", d)>>
+    [] k \in {"TE", "TL", "BI"} -> <<REv("DS", d)>> \o Content(4, d) \o <<REv("DE", d)>>
+    [] k = "BF" -> <<REv("DS", d), REv("C", d), REv("DE", d)>>
     [] k = "A"  -> <<REv("DS", d), REv("ERR", d)>>
     [] k = "AN" -> <<REv("DS", d), REv("C", d), REv("RERR", d), REv("C", d), REv("DE", d)>>   \* recoverable scan error
     [] k = "S"  -> <<REv("DS", d), REv("C", d), REv("ERR", d)>>
@@ -83,5 +101,5 @@ RawFrom(ks, d) == IF d > Len(ks) THEN <<REv("STE", 0)>>
                   ELSE DocRaw(ks[d], d) \o RawFrom(ks, d + 1)
 RawOf(ks) == RawFrom(ks, 1)
 (* how many content events the typed consumer takes before it reports a type error *)
-AbortAfter(k) == IF k = "TE" THEN 2 ELSE IF k = "TL" THEN 4 ELSE IF k = "AN" THEN 2 ELSE 0
+AbortAfter(k) == IF k = "TE" THEN 2 ELSE IF k \in {"TL", "BI"} THEN 4 ELSE IF k = "AN" THEN 2 ELSE IF k = "BF" THEN 1 ELSE 0
 =============================================================================
